@@ -75,6 +75,13 @@ def set_source(r):
             d = r.choice(lines)
             lines.insert(r.randint(lines.index(d) + 1, len(lines)), d if r.random() < 0.5 else d.replace("\n", " "))
     r.shuffle(uses)
+    if r.random() < 0.3:
+        # several definitions on ONE source line (their errors then share file and line)
+        lines = [l.replace("\n", " ") for l in lines]
+        text = ""
+        for i, l in enumerate(lines):
+            text += l + (" " if r.random() < 0.7 and i + 1 < len(lines) else "\n")
+        return text + " | ".join(uses)
     return "\n".join(lines) + "\n" + " | ".join(uses)
 
 
